@@ -230,6 +230,12 @@ for _wk in ('const', 'array'):
                linear=True, deriv=True)(
             lambda ctx, _wk=_wk, _ow=_ow: odl.operator.tensor_ops.PointwiseInnerAdjoint(
                 D3(), ctx.element(_wvf(_wk), 'm'), vfspace=_wvf(_wk), weighting=_ow))
+for _wk in ('const', 'array'):
+    for _ow, _own in ((None, 'default'), (1.0, 'unit-const'), ([1.0, 1.0], 'unit-array'), ([2.0, 0.5], 'array')):
+        for _p in (2, 1):
+            recipe('PointwiseNorm/pspace-%s/opweight-%s/p=%d' % (_wk, _own, _p), [TENS + 'PointwiseNorm'], deriv=True,
+                   heavy=(_p == 2 and _own in ('default', 'array')))(
+                lambda ctx, _wk=_wk, _ow=_ow, _p=_p: odl.PointwiseNorm(_wvf(_wk), exponent=_p, weighting=_ow))
 recipe('PointwiseInner/cn', [TENS + 'PointwiseInner'], linear=True, deriv=True, cplx=True)(
     lambda ctx: odl.PointwiseInner(_vf(C2()), ctx.element(_vf(C2()), 'm')))
 recipe('PointwiseInner/pspace-weighted', [TENS + 'PointwiseInner'], linear=True, deriv=True)(
@@ -317,6 +323,14 @@ for _nm, _lay in (('upper-right-only', [[0, 1], [0, 0]]), ('lower-left-only', [[
                   ('1x3', [[1, 0, 1]]), ('3x1', [[1], [0], [1]]), ('anti-diagonal', [[0, 1], [1, 0]])):
     recipe('ProductSpaceOperator/layout/' + _nm, [PSP + 'ProductSpaceOperator'], linear=True, deriv=True)(
         lambda ctx, _lay=_lay: _pso_layout(ctx, _lay))
+recipe('ProductSpaceOperator/nonlinear-offdiag', [PSP + 'ProductSpaceOperator'], deriv=True)(
+    lambda ctx: odl.ProductSpaceOperator([[None, odl.PowerOperator(R(2), 2)], [odl.PowerOperator(R(2), 3), None]]))
+recipe('ProductSpaceOperator/nonlinear-1x3', [PSP + 'ProductSpaceOperator'], deriv=True)(
+    lambda ctx: odl.ProductSpaceOperator([[odl.PowerOperator(R(2), 3), odl.PowerOperator(R(2), 2),
+                                           odl.ufunc_ops.exp(R(2))]]))
+recipe('ProductSpaceOperator/nonlinear-full', [PSP + 'ProductSpaceOperator'], deriv=True)(
+    lambda ctx: odl.ProductSpaceOperator([[odl.PowerOperator(R(2), 2), odl.ufunc_ops.sin(R(2))],
+                                          [odl.ufunc_ops.exp(R(2)), odl.PowerOperator(R(2), 3)]]))
 recipe('ComponentProjection/int', [PSP + 'ComponentProjection'], linear=True, deriv=True)(
     lambda ctx: odl.ComponentProjection(odl.ProductSpace(R(2), R(3)), 1))
 recipe('ComponentProjection/list', [PSP + 'ComponentProjection'], linear=True, deriv=True)(
